@@ -108,6 +108,27 @@ def evaluate(e, dtype):
         y4 = torch.func.functional_call(L3, sub, (X,))
         if not torch.equal(y4.detach(), y2.detach()):
             fails.append("torch.func.functional_call with substituted parameters does not compute the affine map of those parameters")
+        # a layer constructed in ANOTHER dtype and converted afterwards (module.double() / .float() / .to(dtype)): the contraction must run in
+        # the dtype the parameters have NOW.  Weights carry ~30 significant bits, so a float32 contraction inside a float64 layer shows (1e-8 vs 1e-12).
+        import copy as _copy
+        other = torch.float32 if dtype == torch.float64 else torch.float64
+        W0 = e.args[0]
+        so = [c.shape[1] for c in W0.cores]; si = [c.shape[2] for c in W0.cores]; rk = [1] + [c.shape[3] for c in W0.cores]
+        torch.manual_seed(0)
+        L5 = __import__("torchtt").nn.LinearLayerTT(si, so, rk, dtype=other, initializer=e.init)
+        how = len(fails) % 3
+        L5 = (L5.double() if dtype == torch.float64 else L5.float()) if how == 0 else (L5.to(dtype) if how == 1 else _copy.deepcopy(L5).to(dtype))
+        bump = (2.0 ** -30) if dtype == torch.float64 else 0.0
+        with torch.no_grad():
+            for p, c in zip(L5.cores, W0.cores): p.copy_(ttgen.to_torch(c, dtype) * (1.0 + bump))
+            L5.bias.copy_(ttgen.to_torch(e.args[1].arr, dtype))
+        y5 = L5.forward(X)
+        Wd = torch_full_ttm([ttgen.to_torch(c, torch.float64) * (1.0 + bump) for c in W0.cores])
+        y5ref = torch.tensordot(X.to(torch.float64), Wd, dims=(list(range(nb, nb + d)), list(range(d, 2 * d)))) + ttgen.to_torch(e.args[1].arr, torch.float64)
+        if y5.dtype != dtype: fails.append("forward() of a layer converted to %s returns %s" % (dtype, y5.dtype))
+        tol5 = 1e-12 if dtype == torch.float64 else 1e-5
+        if float((y5.to(torch.float64) - y5ref).abs().max()) > tol5 * (1.0 + float(y5ref.abs().max())):
+            fails.append("forward() of a layer converted after construction is not accurate in its current dtype (stale dtype inside forward?)")
     except Exception as ex:
         fails.append("layer construction / gradient check raised %s: %s" % (type(ex).__name__, str(ex)[:100]))
     return oi, fails
@@ -131,7 +152,8 @@ def nontrivial(e, cat):
 
 RULE = ("random layers: 1..4 modes of size 1..5 (rectangular size_in/size_out), rank profiles up to 3, batch shapes with 0..3 leading dims, "
         "float32/float64, both initialisers; integer weights written into the registered parameters so forward() and all parameter gradients are exact; "
-        "also with the parameters replaced after construction (layer.cores[k] = Parameter(..)) and through torch.func.functional_call with substituted parameters; "
+        "also with the parameters replaced after construction (layer.cores[k] = Parameter(..)), through torch.func.functional_call with substituted parameters, and on layers "
+        "constructed in the other dtype and converted with .double() / .float() / .to(dtype) / deepcopy (weights with ~30 significant bits, 1e-12); "
         "non-trivial = some interior rank > 1; distinct = distinct (structure, dtype) key")
 
 def run(tier, seed, replay=None):
